@@ -99,31 +99,41 @@ def _slim_c12(t: dict) -> dict:
     return t
 
 
-def validate_sized(traces: List[dict], prop: str, budget: int = 1_500_000) -> Validation:
-    """validate_traces in batches bounded by token volume (~20 MB of JSON per JVM)."""
-    val = Validation()
+def validate_sized(traces: List[dict], prop: str, budget: int = 1_000_000) -> Validation:
+    """validate_traces in batches bounded by token volume (<= ~15 MB of JSON per JVM); the batches are independent
+    (one TLC process each, linear in the trace), so up to four run side by side."""
+    from concurrent.futures import ThreadPoolExecutor
+
+    from .par import procs
+
+    batches: List[List[dict]] = []
     batch: List[dict] = []
     size = 0
-
-    def flush():
-        nonlocal batch, size
-        if batch:
-            v = validate_traces("FixTrace", batch, constants={"Prop": prop}, timeout=1800, batch=100000)
-            val.accepted += v.accepted
-            val.rejected += v.rejected
-            val.states += v.states
-            val.transitions += v.transitions
-            val.traces += v.traces
-            val.wall_s += v.wall_s
-        batch, size = [], 0
-
     for t in traces:
         w = 200 + sum(len(e["toks"]["t"]) * 2 + 12 for e in t["events"] if "toks" in e) + 12 * len(t["events"])
         if batch and size + w > budget:
-            flush()
+            batches.append(batch)
+            batch, size = [], 0
         batch.append(t)
         size += w
-    flush()
+    if batch:
+        batches.append(batch)
+
+    def one(b: List[dict]) -> Validation:
+        return validate_traces("FixTrace", b, constants={"Prop": prop}, timeout=1800, batch=10 ** 9)
+
+    val = Validation()
+    if not batches:
+        return val
+    with ThreadPoolExecutor(max_workers=max(1, min(4, procs(len(batches))))) as ex:
+        parts = list(ex.map(one, batches))      # order kept: rejected verdicts stay in input order
+    for v in parts:
+        val.accepted += v.accepted
+        val.rejected += v.rejected
+        val.states += v.states
+        val.transitions += v.transitions
+        val.traces += v.traces
+        val.wall_s += v.wall_s
     return val
 
 
